@@ -10,13 +10,14 @@ cd "$(dirname "$0")/.."
 rsync -a --exclude .lake lean/ "$W/lean/"
 cd "$W/lean"
 echo "== clean build"; /usr/bin/time -f "build: %es, %MKB" lake build PysparklingVerif driver \
-  PysparklingVerif.Extracted.EquivC07 PysparklingVerif.Extracted.EquivC14 PysparklingVerif.Extracted.EquivC16 \
-  PysparklingVerif.Extracted.EquivC17 PysparklingVerif.Extracted.EquivC18 2>&1 | tail -3
+  $(ls PysparklingVerif/Extracted/Equiv*.lean | sed 's/\.lean$//; s#/#.#g') PysparklingVerif.Properties.NonVacuity 2>&1 | tail -3
+echo "== every obligation accounted for in Properties/NonVacuity.lean"
+python3 "$OLDPWD/tools/nonvacuity_check.py" || exit 1
 echo "== forbidden constructs (outside comments)"
 if grep -rnE 'sorry|admit|^axiom |native_decide|bv_decide|implemented_by|unsafe |maxHeartbeats 0' --include=*.lean PysparklingVerif Driver \
    | grep -vE '^\S+:[0-9]+:\s*(--|/-)' | grep -vE -- '-- .*(sorry|admit|axiom)' ; then echo "FOUND"; exit 1; else echo "none"; fi
 echo "== axioms of every obligation"
-( echo "import PysparklingVerif"; for m in C07 C14 C16 C17 C18; do echo "import PysparklingVerif.Extracted.Equiv$m"; done
+( echo "import PysparklingVerif"; for m in $(ls PysparklingVerif/Extracted/Equiv*.lean | sed 's/\.lean$//; s#/#.#g'); do echo "import $m"; done
   grep -rhoE -- '-- OBLIGATION: \S+' PysparklingVerif | sed 's/-- OBLIGATION: /#print axioms /' ) > Audit.lean
 lake env lean Audit.lean > audit.out 2>&1 || { tail -5 audit.out; exit 1; }
 python3 - <<'PY'
